@@ -7,6 +7,7 @@ import (
 	"bytes"
 	"io"
 	"os"
+	"strings"
 )
 
 // WriterKind receives what the library writes through one of the concrete
@@ -61,6 +62,41 @@ func WriterKinds(dir string) []WriterKind {
 			var got bytes.Buffer
 			bw := bufio.NewWriterSize(&got, 64)
 			return bw, func() ([]byte, error) { err := bw.Flush(); return got.Bytes(), err }, nil
+		}},
+		{"*bytes.Buffer that already holds bytes", func() (io.Writer, func() ([]byte, error), error) {
+			b := bytes.NewBuffer(append(make([]byte, 0, 256), prelude...))
+			return b, func() ([]byte, error) {
+				if !bytes.HasPrefix(b.Bytes(), prelude) {
+					return nil, io.ErrShortWrite
+				}
+				return b.Bytes()[len(prelude):], nil
+			}, nil
+		}},
+		{"*os.File positioned after existing bytes", func() (io.Writer, func() ([]byte, error), error) {
+			f, err := os.CreateTemp(dir, "writerkind-*.bin")
+			if err != nil {
+				return nil, nil, err
+			}
+			if _, err := f.Write(prelude); err != nil {
+				f.Close()
+				os.Remove(f.Name())
+				return nil, nil, err
+			}
+			return f, func() ([]byte, error) {
+				defer os.Remove(f.Name())
+				if err := f.Close(); err != nil {
+					return nil, err
+				}
+				all, err := os.ReadFile(f.Name())
+				if err != nil || !bytes.HasPrefix(all, prelude) {
+					return nil, io.ErrShortWrite
+				}
+				return all[len(prelude):], nil
+			}, nil
+		}},
+		{"*strings.Builder", func() (io.Writer, func() ([]byte, error), error) {
+			var sb strings.Builder
+			return &sb, func() ([]byte, error) { return []byte(sb.String()), nil }, nil
 		}},
 		{"io.MultiWriter over two buffers", func() (io.Writer, func() ([]byte, error), error) {
 			var a, b bytes.Buffer
